@@ -263,6 +263,12 @@ public:
                     t1 /= maxval;
                     Scalar p0 = p / maxval;
                     z = maxval * sqrt(abs(p0 * p0 + t0 * t1));
+                    // The Schur form kept this 2x2 block, so its eigenvalues are a complex pair
+                    // there. For a (nearly) defective block the discriminant recomputed here can
+                    // round to exactly zero; the eigenvectors are computed from the imaginary
+                    // part, so keep it a pair, with an imaginary part at the rounding level
+                    if (z == Scalar(0))
+                        z = Eigen::NumTraits<Scalar>::epsilon() * maxval;
                 }
                 m_eivalues.coeffRef(i) = Complex(m_matT.coeff(i + 1, i + 1) + p, z);
                 m_eivalues.coeffRef(i + 1) = Complex(m_matT.coeff(i + 1, i + 1) + p, -z);
